@@ -746,6 +746,36 @@ def run_case(fw, case):
     return r.finish()
 
 
+class CaseTimeout(BaseException):
+    pass
+
+
+_TIMEOUTS = [0]
+
+
+def guarded_case(fw, case):
+    """run_case under a watchdog: a receive loop that never returns (e.g. receive state gone wrong) is interrupted; the
+    interruption shows up as ["escaped", "CaseTimeout"] on the connection that was being fed.  First hang of a process:
+    20 s, later ones 4 s; after 3 hangs the remaining multi-connection cases of the process are skipped."""
+    import signal
+    if _TIMEOUTS[0] >= 3 and "xconn" in case:
+        return {"skipped": True}
+
+    def on_alarm(signum, frame):
+        _TIMEOUTS[0] += 1
+        raise CaseTimeout("the case did not finish in time")
+    signal.signal(signal.SIGALRM, on_alarm)
+    t = 20.0 if _TIMEOUTS[0] == 0 else 4.0
+    signal.setitimer(signal.ITIMER_REAL, t, 4.0)
+    try:
+        return run_case(fw, case)
+    except CaseTimeout:
+        hung = {"events": [["escaped", "CaseTimeout"]], "state": "?", "close": None, "tape": []}
+        return {"xconn": [hung for _ in case["xconn"]]} if "xconn" in case else hung
+    finally:
+        signal.setitimer(signal.ITIMER_REAL, 0)
+
+
 def run_xconn(fw, case):
     """several connections in ONE process (one reactor / event loop, one set of classes): case["xconn"] = the
     connections' cases (their "chunks" are the reads of each), case["schedule"] = the order in which the reads happen, as
@@ -808,7 +838,7 @@ def main():
     out = {}
     env_for(fw)                       # select the framework before any fork
     if "cases" in inp:
-        out["results"] = [run_case(fw, c) for c in inp["cases"]]
+        out["results"] = [guarded_case(fw, c) for c in inp["cases"]]
     if "sweep" in inp:
         sw = inp["sweep"]
         headers = sw["headers"] if sw.get("headers") is not None else list(range(65536))
